@@ -94,6 +94,7 @@ def C11(ctx):
     RQ.check_qs_chain(ctx, u)
     RQ.check_qs_join_leave(ctx, u)
     RQ.check_qs_leave_deferred(ctx, u)
+    RQ.check_qs_deferred_owed(ctx, u)
     RQ.check_qs_full_fences(ctx, u)
     return ("Structural clauses of C11: the domain mutex guard releases through unlock(); counter/ack-count/agent-count "
             "writes are under the domain mutex; run() unlinks and resets the node before the callback and never touches "
@@ -165,6 +166,7 @@ def C16(ctx):
     RO.check_size_agreement(ctx, uh, ["frg::hash_map"], rule="O3.size-agreement")
     RO.check_destroy_before_free(ctx, us, SEQ_OWNERS)
     RO.check_destroy_before_free(ctx, uo, ["frg::unique_ptr"], rule="O4.destroy-before-free")
+    RO.check_allocator_stable(ctx, uo, ["frg::unique_ptr"])
     RO.check_relocation(ctx, us, ["frg::vector", "frg::small_vector"])
     ctx.rule("O7.no-use-after-release", "a pointer is not dereferenced or passed on after the block it designates was "
              "destroyed / returned to the allocator, until it is reassigned", 8)
@@ -221,6 +223,7 @@ def C15(ctx):
     u = need_unit(ctx, "string")
     RST.check_string_buffers(ctx, u)
     RST.check_views(ctx, u)
+    RST.check_cstring_params(ctx, u)
     RST.check_free_after_copies(ctx, u)
     RG.check_swap(ctx, u, ["frg::basic_string"])
     RO.check_empty(ctx, u, ["frg::basic_string"])
